@@ -796,3 +796,115 @@ def _next_slide_partname(c):
         k = r.parts[1].term
         m = z3.Int("sm")
         c.ensures("post.fresh_among_slide1_to_N", z3.ForAll([m], z3.Implies(z3.And(1 <= m, m <= N), m != k)))
+
+
+# -- a second allocation on the same package: hidden state must not short-cut the scan ------------------------------------
+
+
+def _replay_partnames_twice(model, rec):
+    """deck whose notes-slide / chart part numbering has gaps; two more additions of each kind"""
+    import io
+    import re
+    import zipfile
+
+    from pptx import Presentation
+    from pptx.chart.data import CategoryChartData
+    from pptx.enum.chart import XL_CHART_TYPE
+
+    prs = Presentation()
+    cd = CategoryChartData()
+    cd.categories = ["a"]
+    cd.add_series("s", (1,))
+    for i in range(3):
+        s = prs.slides.add_slide(prs.slide_layouts[6])
+        s.notes_slide.notes_text_frame.text = "n%d" % i
+        s.shapes.add_chart(XL_CHART_TYPE.PIE, 0, 0, 100, 100, cd)
+    buf = io.BytesIO()
+    prs.save(buf)
+    src = zipfile.ZipFile(io.BytesIO(buf.getvalue()))
+    out = io.BytesIO()
+    ren = {"notesSlide2.xml": "notesSlide5.xml", "chart2.xml": "chart5.xml"}
+    with zipfile.ZipFile(out, "w") as z:
+        for n in src.namelist():
+            d = src.read(n)
+            n2 = n
+            for a, b in ren.items():
+                n2 = n2.replace(a, b)
+                d = d.replace(a.encode(), b.encode())
+            z.writestr(n2, d)
+    p2 = Presentation(io.BytesIO(out.getvalue()))
+    for k in range(2):
+        s = p2.slides.add_slide(p2.slide_layouts[6])
+        s.notes_slide.notes_text_frame.text = "new%d" % k
+        s.shapes.add_chart(XL_CHART_TYPE.PIE, 0, 0, 100, 100, cd)
+    names = [str(p.partname) for p in p2.part.package.iter_parts()]
+    dup = sorted({n for n in names if names.count(n) > 1})
+    if dup:
+        return {"confirmed": True, "witness_class": "partname-collision", "detail": "deck with notesSlide1,3,5 / chart1,3,5: two more additions give duplicate part names %s" % dup}
+    return {"confirmed": False, "detail": "two further additions on a deck with numbering gaps give distinct part names"}
+
+
+@contract("C06", "C06.opc.package.OpcPackage.next_partname.second_call", replay=_replay_partnames_twice, timeout_ms=30000)
+def _next_partname_twice(c):
+    """a second allocation for the same template on the same package object, after the set of parts has changed arbitrarily
+    (it now contains the first name): the name returned is again not the name of any part."""
+    from pptx.opc.package import OpcPackage
+
+    tmpl = "/ppt/charts/chart%d.xml"
+    lit_a, lit_b = tmpl.split("%d")
+    n1, n2 = c.int("n_parts_first"), c.int("n_parts_second")
+    c.requires(z3.And(n1 >= 0, n2 >= 0))
+    PN1 = z3.Function("PN_FIRST", z3.IntSort(), z3.StringSort())
+    PN2 = z3.Function("PN_SECOND", z3.IntSort(), z3.StringSort())
+    state = {"call": 0}
+
+    def parts_of(PN, n, tag):
+        return SSeq(n, lambda j: SObj(None, "part", partname=SStr([Atom("partname_%s[%s]" % (tag, j), zs=PN(j))])), name="iter_parts")
+
+    def iter_parts(it, a, k):
+        state["call"] += 1
+        return parts_of(PN1, n1, "first") if state["call"] == 1 else parts_of(PN2, n2, "second")
+
+    pkg = SObj(OpcPackage, "package", iter_parts=GhostFn(iter_parts, "iter_parts"))
+    qn = "pptx.opc.package:OpcPackage.next_partname"
+    holder = {}
+
+    def inv(env, k):
+        m = z3.Int("nm2")
+        s = env["partnames"]
+        holder["s"] = s
+        L = getattr(s, "length_term", None)
+        return z3.ForAll([m], z3.Implies(z3.And(L + 1 - k < m, m <= L + 1), s.exists_eq(z3.Concat(z3.StringVal(lit_a), z3.IntToStr(m), z3.StringVal(lit_b)))))
+
+    def pigeonhole():
+        s = holder.get("s")
+        if s is not None and getattr(s, "length_term", None) is not None:
+            m = z3.Int("pm4")
+            c.assume(z3.Exists([m], z3.And(1 <= m, m <= s.length_term + 1, z3.Not(s.exists_eq(z3.Concat(z3.StringVal(lit_a), z3.IntToStr(m), z3.StringVal(lit_b)))))),
+                     "pigeonhole: a set of L names cannot contain all of the L+1 candidates")
+
+    c.loop_specs[(qn, 0)] = invariant_loop("C06.opc.package.OpcPackage.next_partname.second_call.loop0", [], inv)
+    out1 = c.run(OpcPackage.next_partname, pkg, tmpl)
+    if out1.raised:
+        pigeonhole()
+        c.fails("first.never_raises", "raised %s" % out1.exc)
+        return
+    z1 = out1.value.z3() if isinstance(out1.value, SStr) else None
+    if z1 is None:
+        c.fails("first.is_str", "first result has no string form")
+        return
+    j = z3.Int("pj2")
+    # the second population is arbitrary except that it contains the name just handed out
+    w = c.int("where_first_name_is")
+    c.requires(z3.And(0 <= w, w < n2, PN2(w) == z1))
+    out2 = c.run(OpcPackage.next_partname, pkg, tmpl)
+    if out2.raised:
+        pigeonhole()
+        c.fails("second.never_raises", "raised %s" % out2.exc)
+        return
+    z2 = out2.value.z3() if isinstance(out2.value, SStr) else None
+    c.ensures("second.is_str", z2 is not None)
+    if z2 is None:
+        return
+    c.ensures("second.scanned_the_current_parts", state["call"] == 2)
+    c.ensures("second.fresh_among_current_parts", z3.ForAll([j], z3.Implies(z3.And(0 <= j, j < n2), PN2(j) != z2)))
